@@ -413,6 +413,8 @@ def _part_curves(case, ctx):
         ctx.label("via_setPhaseOffset")
     if form in ("array1d", "array2d") and len(used) >= 1:
         _buffer_reuse(mod, cfg, used, case["L"], ctx, tags)
+        _stateless_history(mod, cfg, used, case["L"], ctx, tags,
+                           case["L"] * 7919 + len(used))
     # scalar and array calls agree
     if form in ("array1d", "array2d") and len(used) >= 1:
         i = len(used) // 2
@@ -421,6 +423,42 @@ def _part_curves(case, ctx):
             [REL_ORD * abs(ser[i]) +
              (1e-13 if cfg["cls"] == "QAM" else 1e-290)],
             "SER(scalar) != SER(array)[i]", tags)
+
+
+def _stateless_history(mod, cfg, used, L, ctx, tags, seed):
+    """The five theoretical quantities are functions of their arguments:
+    whatever was asked before on the same modulator, in whatever order, with
+    the same SNR array object updated in place or not, and whatever the
+    caller did to arrays it got back - every answer equals the one of a
+    modulator that has never been asked anything."""
+    rs = np.random.RandomState(int(seed) % (2 ** 31 - 1))
+    names = ["calcTheoreticalSER", "calcTheoreticalBER", "calcTheoreticalPER",
+             "calcTheoreticalSpectralEfficiency",
+             "calcTheoreticalSpectralEfficiency"]
+    extras = [(), (), (L,), (L,), ()]
+    buf = np.array(used, dtype=float)
+    prev = None
+    for step in range(7):
+        k = int(rs.randint(5))
+        act = int(rs.randint(4))
+        if act == 1:
+            buf += float(rs.choice([3.0, -7.5, 0.25]))
+            np.clip(buf, -30.0, 60.0, out=buf)
+        elif act == 2 and prev is not None and prev.flags.writeable:
+            prev *= 100.0                     # the caller re-scales a result
+        arg = buf.copy() if act == 3 else buf
+        got = np.asarray(getattr(mod, names[k])(arg, *extras[k]))
+        ref = np.asarray(getattr(_build(cfg), names[k])(buf.copy(),
+                                                        *extras[k]),
+                         dtype=float)
+        if got.shape != ref.shape or not np.allclose(
+                np.asarray(got, dtype=float), ref, rtol=1e-12, atol=0.0):
+            raise Violation("stateful_answer", "step %d: %s%r on a used "
+                            "modulator differs from a modulator that was "
+                            "never asked anything (previous action %d)" %
+                            (step, names[k], extras[k], act), tags)
+        prev = got if isinstance(got, np.ndarray) and got.ndim else None
+    ctx.label("stateless_history_checked")
 
 
 def _buffer_reuse(mod, cfg, used, L, ctx, tags):
